@@ -39,6 +39,9 @@ type odef struct {
 	A    byte   `json:"a"`  // '-', 'v', 'f', 'm'
 	B    byte   `json:"b"`
 	Miss bool   `json:"miss"`
+	// second family: a property that shadows a built-in name (Obj#S) and a non-callable _missing
+	S       byte `json:"s,omitempty"`        // 0 / '-', 'v', 'm'
+	MissVal bool `json:"miss_val,omitempty"` // _missing is a plain value
 }
 
 type tcase struct {
@@ -86,13 +89,17 @@ func (o odef) kind(n string) byte {
 		return o.A
 	case "b":
 		return o.B
+	case "S":
+		if o.S != 0 {
+			return o.S
+		}
 	}
 	return '-'
 }
 
 func layoutSrc(k int, o odef) string {
 	parts := []string{fmt.Sprintf("id: %d", k)}
-	for _, n := range []string{"a", "b"} {
+	for _, n := range []string{"a", "b", "S"} {
 		switch o.kind(n) {
 		case 'v':
 			parts = append(parts, fmt.Sprintf("%s: %d", n, val(k, n)))
@@ -105,12 +112,18 @@ func layoutSrc(k int, o odef) string {
 	if o.Miss {
 		parts = append(parts, fmt.Sprintf(`_missing: m{|n, y| ["miss", %d, self['id], n, y]}`, k))
 	}
+	if o.MissVal {
+		parts = append(parts, fmt.Sprintf(`_missing: %d`, 9000+k))
+	}
 	return "{" + strings.Join(parts, ", ") + "}"
 }
 
 func val(k int, n string) int {
-	if n == "a" {
+	switch n {
+	case "a":
 		return 100*k + 1
+	case "S":
+		return 100*k + 3
 	}
 	return 100*k + 2
 }
@@ -147,7 +160,11 @@ func (t tcase) probes() []probe {
 	n := len(t.Objs)
 	for k := 0; k < n; k++ {
 		ch := t.chain(k)
-		for _, name := range []string{"a", "b", "c"} {
+		names := []string{"a", "b", "c"}
+		if t.family2() {
+			names = []string{"a", "S", "c"}
+		}
+		for _, name := range names {
 			owner := -1
 			for _, c := range ch {
 				if t.Objs[c].kind(name) != '-' {
@@ -156,11 +173,18 @@ func (t tcase) probes() []probe {
 				}
 			}
 			mowner := -1
+			mIsVal := false
 			for _, c := range ch {
-				if t.Objs[c].Miss {
+				if t.Objs[c].Miss || t.Objs[c].MissVal {
 					mowner = c
+					mIsVal = t.Objs[c].MissVal
 					break
 				}
+			}
+			if name == "S" && owner < 0 {
+				// not shadowed: the built-in Obj#S is found before any _missing; only its owner is probed
+				ps = append(ps, probe{src: fmt.Sprintf("v%d.which('S) == Obj", k), want: "true", what: "which-builtin"})
+				continue
 			}
 			v := fmt.Sprintf("v%d", k)
 			call := func(y string) probe {
@@ -174,6 +198,8 @@ func (t tcase) probes() []probe {
 				case owner >= 0:
 					tag := string(t.Objs[owner].kind(name)) + name
 					return probe{src: src, want: fmt.Sprintf(`["%s", %d, %d, %s]`, tag, owner, k, y), what: "call/callable-property"}
+				case mowner >= 0 && mIsVal:
+					return probe{src: src, want: fmt.Sprint(9000 + mowner), what: "call/_missing-non-callable"}
 				case mowner >= 0:
 					return probe{src: src, want: fmt.Sprintf(`["miss", %d, %d, "%s", %s]`, mowner, k, name, y), what: "call/_missing"}
 				}
@@ -224,10 +250,13 @@ func (t tcase) probes() []probe {
 		if t.Objs[k].B != '-' {
 			pub = append(pub, `"b"`)
 		}
+		if t.Objs[k].S != 0 && t.Objs[k].S != '-' {
+			pub = append(pub, `"S"`)
+		}
 		sort.Strings(pub)
 		ps = append(ps, probe{src: v + ".keys", want: "[" + strings.Join(pub, ", ") + "]", what: "keys"})
 		all := append([]string{}, pub...)
-		if t.Objs[k].Miss {
+		if t.Objs[k].Miss || t.Objs[k].MissVal {
 			all = append(all, `"_missing"`)
 		}
 		ps = append(ps, probe{src: v + ".keys(private?: true)", want: "[" + strings.Join(all, ", ") + "]", what: "keys-private"})
@@ -252,6 +281,15 @@ func (t tcase) probes() []probe {
 		ps = append(ps, probe{src: v + ".kindOf?(BaseObj)", want: "true", what: "kindOf-builtin"})
 	}
 	return ps
+}
+
+func (t tcase) family2() bool {
+	for _, o := range t.Objs {
+		if o.S != 0 || o.MissVal {
+			return true
+		}
+	}
+	return false
 }
 
 func (t tcase) bodies() (string, []probe, []probe) {
@@ -307,6 +345,16 @@ func layouts(set string) []odef {
 		ls = []odef{{A: '-', B: '-'}, {A: 'v', B: '-'}, {A: 'm', B: '-'}, {A: '-', B: 'f'}, {A: 'v', B: 'm'}, {A: '-', B: '-', Miss: true}, {A: 'f', B: '-', Miss: true}, {A: 'm', B: 'v', Miss: true}}
 	case "4":
 		ls = []odef{{A: '-', B: '-'}, {A: 'v', B: '-'}, {A: 'm', B: '-', Miss: true}, {A: '-', B: 'f'}}
+	case "family2":
+		for _, a := range []byte{'-', 'v', 'm'} {
+			for _, sk := range []byte{'-', 'v', 'm'} {
+				for mk := 0; mk < 3; mk++ {
+					ls = append(ls, odef{A: a, B: '-', S: sk, Miss: mk == 1, MissVal: mk == 2})
+				}
+			}
+		}
+	case "family2-small":
+		ls = []odef{{A: '-', B: '-', S: '-'}, {A: 'v', B: '-', S: 'm'}, {A: '-', B: '-', S: 'v', MissVal: true}, {A: 'm', B: '-', S: '-', Miss: true}, {A: '-', B: '-', S: '-', MissVal: true}}
 	}
 	return ls
 }
@@ -325,7 +373,7 @@ func gen(depth int, ls []odef, emit func(tcase)) {
 				rec(append(objs, o))
 			}
 			with("lit", 0)
-			if len(objs) == 0 {
+			if len(objs) == 0 && l.S == 0 {
 				with("int", 0)
 				with("str", 0)
 			}
@@ -394,9 +442,9 @@ func run(c *core.Ctx) {
 		depth int
 		set   string
 	}
-	plans := []plan{{1, "full"}, {2, "full"}, {3, "8"}}
+	plans := []plan{{1, "full"}, {2, "full"}, {3, "8"}, {2, "family2"}, {3, "family2-small"}}
 	if c.Thorough() {
-		plans = []plan{{1, "full"}, {2, "full"}, {3, "16"}, {4, "4"}}
+		plans = []plan{{1, "full"}, {2, "full"}, {3, "16"}, {4, "4"}, {2, "family2"}, {3, "family2"}}
 	}
 	c.Note("plans(depth,layout-set)", fmt.Sprint(plans))
 	n := 0
